@@ -2,6 +2,7 @@
 package c03
 
 import (
+	"encoding/json"
 	"fmt"
 	"slices"
 	"testing"
@@ -48,6 +49,7 @@ type list interface {
 	Size() int
 	Clear()
 	Values() []int
+	FromJSON([]byte) error
 }
 
 type linked interface {
@@ -94,6 +96,8 @@ func applyModel(m []int, op Op) []int {
 		return dom.SortedBy(op.C, m)
 	case "clear":
 		return m[:0]
+	case "load":
+		return slices.Clone(op.Vs)
 	}
 	return m
 }
@@ -161,6 +165,9 @@ func check(c Case) (pbt.Info, error) {
 		n := len(models[0])
 		switch op.O {
 		case "contains":
+			if len(op.Vs) > 16 && n > 128 {
+				label("contains:17+args-on-129+elements")
+			}
 			for li, l := range ls {
 				want := true
 				for _, v := range op.Vs {
@@ -231,6 +238,8 @@ func check(c Case) (pbt.Info, error) {
 			}
 		case "sort":
 			label("sort:" + op.C)
+		case "load":
+			label("load")
 		}
 		for li, l := range ls {
 			switch op.O {
@@ -252,6 +261,13 @@ func check(c Case) (pbt.Info, error) {
 				l.Sort(dom.Cmp(op.C))
 			case "clear":
 				l.Clear()
+			case "load":
+				// a state reached through FromJSON is a reachable state too: the array
+				// replaces the content and the list keeps behaving as the sequence
+				doc, _ := json.Marshal(append([]int{}, op.Vs...))
+				if err := l.FromJSON(doc); err != nil {
+					return info, fmt.Errorf("%s step %d: FromJSON(%s) failed: %v", names[li], i, doc, err)
+				}
 			default:
 				return info, fmt.Errorf("bad op %q", op.O)
 			}
@@ -295,7 +311,7 @@ func gen(t *rapid.T) Case {
 	n := rapid.IntRange(0, 40).Draw(t, "n")
 	for i := 0; i < n; i++ {
 		var op Op
-		switch dom.Weighted(t, "op", 1, 10, 5, 6, 16, 16, 10, 8, 4, 1, 6, 2, 3) {
+		switch dom.Weighted(t, "op", 1, 10, 5, 6, 16, 16, 10, 8, 4, 1, 6, 2, 3, 2) {
 		case 0:
 			continue
 		case 1:
@@ -324,6 +340,8 @@ func gen(t *rapid.T) Case {
 			case 1: // the whole current contents (every argument present, duplicates as they come)
 				op.Vs = slices.Clone(m)
 			}
+		case 13:
+			op = Op{O: "load", Vs: vals(t, "doc", 0, 12)}
 		case 11: // bulk add: crosses the array list's growth thresholds
 			op = Op{O: "add", Vs: vals(t, "bulk", 8, 40)}
 		case 12: // run of removals at one index: crosses the shrink threshold
@@ -357,7 +375,7 @@ func genLong(t *rapid.T) Case {
 		for i := 0; i < n; i++ {
 			raw := rapid.IntRange(0, 1<<20).Draw(t, "raw")
 			var op Op
-			switch dom.Weighted(t, "op", 1, 6, 4, 8, 4, 4, 2, 3, 1, 8, 6) {
+			switch dom.Weighted(t, "op", 1, 6, 4, 8, 4, 4, 2, 3, 1, 8, 6, 1) {
 			case 0:
 				continue
 			case 1:
@@ -374,6 +392,23 @@ func genLong(t *rapid.T) Case {
 				op = Op{O: "sort", C: []string{dom.Nat, dom.Rev, dom.Half, dom.Mag}[rapid.IntRange(0, 3).Draw(t, "cmp")]}
 			case 7:
 				op = Op{O: "contains", Vs: big("probe", 0, 4)}
+				// long argument lists against long lists: every argument present (with
+				// repeats), the same plus one absent value, the whole contents
+				if len(m) > 0 {
+					switch rapid.IntRange(0, 3).Draw(t, "probe-shape") {
+					case 0, 1:
+						k := rapid.IntRange(9, 70).Draw(t, "probe-n")
+						op.Vs = nil
+						for j := 0; j < k; j++ {
+							op.Vs = append(op.Vs, m[(raw+j*rapid.IntRange(1, 97).Draw(t, "probe-stride"))%len(m)])
+						}
+						if rapid.IntRange(0, 3).Draw(t, "absent") == 0 {
+							op.Vs[raw%len(op.Vs)] = 99
+						}
+					case 2:
+						op.Vs = slices.Clone(m)
+					}
+				}
 			case 8:
 				op = Op{O: "clear"}
 			case 9: // a run of removals at one (relative) position: front, back or middle
@@ -386,6 +421,8 @@ func genLong(t *rapid.T) Case {
 					m = applyModel(m, rop)
 				}
 				continue
+			case 11:
+				op = Op{O: "load", Vs: big("doc", 0, 150)}
 			case 10:
 				op = Op{O: "remove", I: dom.WildIndex(raw, len(m))}
 			}
